@@ -109,6 +109,7 @@ def register(reg):
     box = '(0, aper_weights.shape[0]), (0, aper_weights.shape[1])'
     reg.add(Contract(
         target=f'{A}.do_photometry', props=['C02', 'C19'], kind='method', stmt='values',
+        stmt_like='(data[slc_large] * aper_weights)[pixel_mask]',
         params=env, requires=pre,
         ensures=[
             ('domain', 'shape_of(value) == aper_weights.shape'),
@@ -125,6 +126,7 @@ def register(reg):
     ))
     reg.add(Contract(
         target=f'{A}.do_photometry', props=['C02', 'C19'], kind='method', stmt='variance',
+        stmt_like='(error[slc_large].astype(float) ** 2 * aper_weights)[pixel_mask]',
         params=env, requires=pre,
         ensures=[
             ('domain', 'shape_of(value) == aper_weights.shape'),
